@@ -22,6 +22,16 @@ structure Op where
   coins : List Nat := []
   mcoins : Option (List Nat) := none
   mutn : List String := []
+  total : Nat := 0
+  thr : Nat := 0
+  ivl : Nat := 0
+  last : Nat := 0
+  atr : Nat := 0
+  vmsg : Nat := 0
+  vlnpw : Nat := 0
+  hdr : Nat := 0
+  first : Nat := 0
+  kind : String := "sp"
 
 def listNat (s : String) : List Nat :=
   if s = "-" || s = "" then [] else (s.splitOn ",").map nat!
@@ -33,7 +43,8 @@ def parsePart (s : String) : Nat × Nat :=
 
 def parse (line : String) : Option Op :=
   match fields line with
-  | "sp" :: kvs =>
+  | knd :: kvs =>
+    if knd != "sp" && knd != "vsp" && knd != "accw" then none else
     some <| kvs.foldl (fun o kv =>
       match kv.splitOn "=" with
       | [k, v] =>
@@ -48,8 +59,17 @@ def parse (line : String) : Option Op :=
         else if k = "coins" then { o with coins := listNat v }
         else if k = "mcoins" then { o with mcoins := if v = "-" then none else some (listNat v) }
         else if k = "mut" then { o with mutn := v.splitOn ":" }
+        else if k = "total" then { o with total := nat! v }
+        else if k = "thr" then { o with thr := nat! v }
+        else if k = "ivl" then { o with ivl := nat! v }
+        else if k = "last" then { o with last := nat! v }
+        else if k = "at" then { o with atr := nat! v }
+        else if k = "vmsg" then { o with vmsg := nat! v }
+        else if k = "vlnpw" then { o with vlnpw := nat! v }
+        else if k = "hdr" then { o with hdr := nat! v }
+        else if k = "first" then { o with first := nat! v }
         else o
-      | _ => o) {}
+      | _ => o) { kind := knd }
   | _ => none
 
 def symSig (key life rnd msg : Nat) : SymSig := ⟨key, firstRoundInKeyLifetime rnd life, msg, 0, 0⟩
@@ -189,10 +209,20 @@ def applyMut (o : Op) (b : Prover SymSig) (i : VIn) : List String → Option VIn
     | _, _ => none
   | _ => none
 
+def showLErr : Except LErr Unit → String
+  | .ok _ => "ok"
+  | .error .notEnabled => "err:notenabled"
+  | .error .notMultiple => "err:notmultiple"
+  | .error .insufficientWeight => "err:weight"
+  | .error .overflow => "err:overflow"
+  | .error .lnZero => "err:lnzero"
+  | .error (.crypto _) => "err:crypto"
+
 def handle (line : String) : String :=
   match parse line with
   | none => "bad-op"
   | some o =>
+    if o.kind = "accw" then toString (acceptableWeight o.total o.ivl o.thr (o.hdr + o.ivl) o.first) else
     match buildProver o with
     | .error e => s!"create={e}"
     | .ok b =>
@@ -206,6 +236,11 @@ def handle (line : String) : String :=
         match createProof E b with
         | .error e => s!"create={showPErr e}"
         | .ok sp =>
+          if o.kind = "vsp" then
+            let r := validateStateProof E (fun _ => o.vlnpw)
+              ⟨o.last, E.vcP.commit b.participants, o.total, o.ivl, o.thr, o.st⟩ sp o.atr o.vmsg
+            s!"create=ok coins=ok validate={showLErr r}"
+          else
           match applyMut o b ⟨verifierOf E b, o.rnd, o.msg, sp⟩ o.mutn with
           | none => "bad-mut"
           | some i =>
